@@ -443,7 +443,7 @@ func TestC08(t *testing.T) {
 	deadline := ev.Deadline(8 * time.Minute)
 	for _, sc := range scs {
 		x := &sched.Explorer{Bound: bound, Report: rep, Deadline: deadline, Scenario: sc.name, AuditN: 200, Run: func(c *sched.Chooser) sched.Result { return runC08(t, sc, c) }}
-		if !x.Explore() {
+		if !x.ExploreOrReplay() {
 			rep.NotExhaustive("deadline or violation cap in " + sc.name)
 			break
 		}
